@@ -482,6 +482,8 @@ func main() {
 		runMergeCases(r, n, "merge")
 		timeouts = 0
 		runMergeCases(r, n, "sortmerge")
+		timeouts = 0
+		runMergeCases(r, n/2, "sortappend")
 	}
 }
 
